@@ -473,6 +473,12 @@ def run(ctx):
                  '"Unsupported workflow command")' % c.rsplit('.', 1)[1],
                  prog.loc(c))
     shared.command_dispatch(ctx, r6)
+    shared.build_task_from_command(ctx, r6)
+    for fq_, var_ in (('mistral.engine.dispatcher._process_commands', 'cmd'),
+                      ('mistral.engine.task_handler._build_task_from_command',
+                       'cmd')):
+        shared.narrowed_attrs(ctx, r6, fq_, var_,
+                              'mistral.workflow.commands.WorkflowCommand')
     shared.rearrange_tail(ctx, r6)
     try:
         eng = set(prog.const('mistral.lang.v2.workflows', 'ENGINE_COMMANDS'))
@@ -524,6 +530,38 @@ def run(ctx):
                      '%s is never consulted for %s'
                      % (name, sorted(need[name] - reach_states)),
                      ctx.loc(fn, c))
+    # each clause loop adds (name, params, <its own event>) for the entries
+    # whose condition is absent or evaluates to true
+    ev_of = {'get_on_error_clause': 'on-error',
+             'get_on_skip_clause': 'on-skip',
+             'get_on_success_clause': 'on-success',
+             'get_on_complete_clause': 'on-complete'}
+    for lp in [x for x in own_nodes(fn.node) if isinstance(x, ast.For)]:
+        getter = U.call_name(lp.iter) if isinstance(lp.iter, ast.Call) \
+            else None
+        if getter not in ev_of:
+            continue
+        tv = [dotted(e) for e in getattr(lp.target, 'elts', [])]
+        apps = [y for y in ast.walk(lp) if isinstance(y, ast.Call) and
+                U.call_name(y) == 'append' and
+                dotted(y.func.value) == 'result']
+        okl = len(tv) == 3 and len(apps) == 1
+        if okl:
+            a = apps[0]
+            an = cfg.node_of(a)
+            tup = a.args[0] if a.args else None
+            okl = isinstance(tup, ast.Tuple) and len(tup.elts) == 3 and \
+                dotted(tup.elts[0]) == tv[0] and \
+                isinstance(tup.elts[2], ast.Constant) and \
+                tup.elts[2].value == ev_of[getter] and \
+                U.guarded(cfg, an, 'not %s or expr.evaluate(%s, ___)'
+                          % (tv[1], tv[1]), True) and \
+                not any(isinstance(y, (ast.Break, ast.Continue, ast.Return))
+                        for y in ast.walk(lp))
+        r7.check(okl, ctx.construct(fn, extra=getter + ' entries'),
+                 'the %s loop does not add exactly the entries whose '
+                 'condition is absent or true, tagged %r'
+                 % (getter, ev_of[getter]), ctx.loc(fn, lp))
     # skip_is_empty only when on-skip produced nothing
     for x in own_nodes(fn.node):
         if isinstance(x, ast.Assign) and dotted(x.targets[0]) == \
